@@ -114,6 +114,79 @@ def _triples(task):
     return {"n": c.n, "fails": c.fails, "nontriv": nontriv}
 
 
+def _marker_work(task):
+    src, tier, triples = task
+    from .. import markexplore as mx
+    dom = mx.domain(src)
+    fails, n = [], 0
+    B = mx.STEP_BUDGET
+
+    def op(o, a, b):
+        kind, r = dom.apply(o, a, b, budget=B)
+        if kind != "ok":
+            raise PyRaise(r)
+        return r
+    for ka, kb, kc in triples:
+        a, b, c = mx.rebuild(dom, ka), mx.rebuild(dom, kb), mx.rebuild(dom, kc)
+        laws = [
+            ("commutativity-and", lambda: op("&", a, b), lambda: op("&", b, a)),
+            ("commutativity-or", lambda: op("|", a, b), lambda: op("|", b, a)),
+            ("associativity-and", lambda: op("&", op("&", a, b), c), lambda: op("&", a, op("&", b, c))),
+            ("associativity-or", lambda: op("|", op("|", a, b), c), lambda: op("|", a, op("|", b, c))),
+            ("absorption-and-or", lambda: op("&", a, op("|", a, b)), lambda: a),
+            ("absorption-or-and", lambda: op("|", a, op("&", a, b)), lambda: a),
+            ("distributivity-and-or", lambda: op("&", a, op("|", b, c)), lambda: op("|", op("&", a, b), op("&", a, c))),
+            ("distributivity-or-and", lambda: op("|", a, op("&", b, c)), lambda: op("&", op("|", a, b), op("|", a, c))),
+            ("idempotence", lambda: op("&", a, a), lambda: op("|", a, a)),
+        ]
+        for name, lhs, rhs in laws:
+            try:
+                l, r = lhs(), rhs()
+            except PyRaise as e:
+                fails.append(("R14.3", f"dep_logic.markers:{name}:raises", f"{name} on ({dom.show(a)}, {dom.show(b)}, {dom.show(c)}) raises {e.exc!r}", None))
+                continue
+            except Exception as e:
+                if "step budget" in str(e):
+                    continue
+                raise
+            n += 1
+            if dom.den(l) != dom.den(r):
+                fails.append(("R14.3", dom.blame(f"dep_logic.markers:{name}"),
+                              f"marker law {name} fails up to equivalence for a={dom.show(a)}, b={dom.show(b)}, c={dom.show(c)}: "
+                              f"{dom.show(l)} vs {dom.show(r)} differ at {dom.first_diff(dom.den(l), dom.den(r))}", {"path": dom.path()}))
+    return {"fails": fails, "n": n}
+
+
+def marker_laws(chk):
+    import random
+    from .. import markexplore as mx
+    chk.rule("R14.3", "marker laws up to equivalence on seeded triples of atoms (both sides interpreted, denotations compared)")
+    dom = mx.domain(str(chk.src))
+    keys = [dom.key(a) for _, a in mx.build_atoms(dom, chk.tier)]
+    rnd = random.Random(chk.seed + 14)
+    triples = [tuple(rnd.sample(keys, 3)) for _ in range(250 if chk.tier == "quick" else 3000)]
+    # bias: half of the triples share a variable between two operands (where merging happens)
+    by_var = {}
+    for k in keys:
+        by_var.setdefault(k[1], []).append(k)
+    for _ in range(250 if chk.tier == "quick" else 3000):
+        var = rnd.choice(list(by_var))
+        if len(by_var[var]) >= 2:
+            x, y = rnd.sample(by_var[var], 2)
+            triples.append((x, y, rnd.choice(keys)))
+    src = str(chk.src)
+    per = max(1, (len(triples) + chk.jobs * 3 - 1) // (chk.jobs * 3))
+    total = nf = 0
+    for r in parallel(_marker_work, [(src, chk.tier, triples[i:i + per]) for i in range(0, len(triples), per)], chk.jobs):
+        total += r["n"]
+        for f in r["fails"]:
+            nf += 1
+            chk.fail(*f)
+    chk.rules["R14.3"]["instances"] += total
+    chk.analysed["R14.3"] = {"triples": len(triples), "law_instances": total}
+    return total, nf
+
+
 def run(chk):
     from ..specalg import with_fallback
     with_fallback(chk, _run)
@@ -149,6 +222,10 @@ def _run(chk):
         chk.rules[rid]["obligations"] += sub
         total += sub
         chk.analysed[rid] = {"K": K, "operands": n_ops, "law_instances": sub}
+    # marker half, bounded: both sides of each law denote the same environment set (seeded triples of level-0 atoms)
+    mt, mf = marker_laws(chk)
+    total += mt
+    nfail += mf
     good = max(0, total - nfail)
     chk.obligations += good
     chk.discharged += good
@@ -159,5 +236,5 @@ def _run(chk):
     chk.sample({"law": "distributivity-and-or", "a": dom.operands[3][0], "b": dom.operands[6][0], "c": dom.operands[10][0]})
     chk.extra["rule_text"] = ("law instances = (law, operand tuple); non-trivial = operands pairwise different and none empty/universal (counted)")
     chk.extra["derived_for_larger_operands"] = ["C01/R01.2 both sides denote the same set", "C05/R05.1+R05.2 equal sets => equal objects", "C01/R01.4 closure"]
-    chk.notes.append("marker laws (up to equivalence) are a corollary of C02 soundness; decided there, not here")
+    chk.notes.append("marker laws: bounded sample here (R14.3); in general they are a corollary of C02's soundness clauses")
     chk.trusted += ["total order on versions", "operator protocol / dataclass model of vsa/absint.py"]
